@@ -734,6 +734,31 @@ def rule_absent_auxv_tolerated(ctx, R="C11/absent-auxv-tolerated"):
     ctx.floor(R, "consumers of optional auxv values outside the linker-debug step", n, 2)
 
 
+def rule_complete_auxv_needs_no_file(ctx, R="C11/complete-auxv-needs-no-file"):
+    """`an empty list when nothing failed`: when the caller supplied every auxv value (set_direct_auxv_dump_info — the documented remedy
+    for an unreadable /proc/<pid>/auxv) there is nothing to complete, so nothing can fail: every failure exit of
+    try_filling_missing_info and every soft error it pushes lies behind `!self.is_complete()`.  (Otherwise a flawless dump of a
+    sandboxed target lists FillMissingAuxvInfoFailed although no value was missing.)"""
+    from engine.paths import conditions
+    b = ctx.body(R, "linux::auxv::AuxvDumpInfo::try_filling_missing_info")
+    if b is None:
+        return
+    o = Origin(b)
+    ex = Exits(b)
+
+    def rel(a):
+        a = core(a)
+        return a[0] == "call" and a[1] == "linux::auxv::AuxvDumpInfo::is_complete"
+    targets = [(eb, "failure exit") for eb in sorted(ex.err_blocks())]
+    targets += [(x, "soft error") for x, t in b.calls(lambda c: is_push(c))]
+    ctx.floor(R, "failure exits and soft-error pushes in try_filling_missing_info", len(targets), 2)
+    for x, what in targets:
+        dnf = conditions(b, x, origin=o, relevant=rel)
+        ok = bool(dnf) and all(any(v == 0 for (q, v) in c) for c in dnf)
+        ctx.check(ok, R, (what, "behind-incomplete"), b.where(x), "reached only when the information is incomplete",
+                  "a %s of try_filling_missing_info can be reached although every value was supplied (no `!is_complete()` on the way): the step reports a failure of completing information that needed no completing" % what)
+
+
 def rule_stop_state_source(ctx, R="C11/stop-state-source"):
     """`lists each failure that occurred ... an empty list when nothing failed` for the stop step: stop_process reports success exactly
     when the kernel says the process is stopped.  The state it waits for is `Stat::state()` of procfs's own parser applied to
@@ -769,6 +794,7 @@ PROCSTATE_STOPPED = 4
 
 def run(ctx):
     rule_error_turned_success(ctx)
+    rule_complete_auxv_needs_no_file(ctx)
     rule_stop_state_source(ctx)
     rule_absent_auxv_tolerated(ctx)
     rule_every_step_attempted(ctx)
